@@ -210,3 +210,47 @@ def respX : J := .obj [("x", .num)]
 
 end W
 end NitroVerif.OpTypes
+
+namespace NitroVerif.OpTypes
+open NitroVerif.Gql NitroVerif.Ts
+
+/-! ### parent objects of a branch enumeration -/
+
+theorem typeDef?_name {S : Schema} {n : Name} {t : TypeDef} (h : S.typeDef? n = some t) : t.name = n := by
+  have := List.find?_some h
+  simpa using this
+
+def memberObj (S : Schema) (m : Name × Pos) : Except Panic TypeDef :=
+  match S.typeDef? m.1 with
+  | some o => if o.kind == .object then .ok o else .error .typeSystemError
+  | none => .error .typeSystemError
+
+theorem mapM_member_names (S : Schema) : ∀ (ms : List (Name × Pos)) (objs : List TypeDef),
+    ms.mapM (memberObj S) = .ok objs → objs.map (·.name) = ms.map (·.1) := by
+  intro ms
+  induction ms with
+  | nil => intro objs h; simp [pure, Except.pure] at h; subst h; rfl
+  | cons m ms ih =>
+    intro objs h
+    simp only [List.mapM_cons, bind, Except.bind] at h
+    cases hm : memberObj S m with
+    | error e => simp [hm] at h
+    | ok o =>
+      simp only [hm] at h
+      cases hr : ms.mapM (memberObj S) with
+      | error e => simp [hr] at h
+      | ok os =>
+        simp only [hr, pure, Except.pure] at h
+        cases h
+        simp only [List.map_cons, ih os hr]
+        congr 1
+        unfold memberObj at hm
+        split at hm
+        · rename_i o' ho'
+          split at hm
+          · cases hm; exact typeDef?_name ho'
+          · cases hm
+        · cases hm
+
+
+end NitroVerif.OpTypes
